@@ -47,6 +47,9 @@ def run(run):
                 Lattice(pc.ctx, infimum=pc.objects[:1])
             except Exception:
                 pass
+        if run.evaluations % 5 == 1 and not getattr(pc, 'reloaded', False):
+            # covers asked for (twice) before the lattice is built: the enumeration must not be affected
+            pc.ctx.neighbors(pc.objects[:1]), pc.ctx.neighbors(pc.objects[:1]), pc.ctx.neighbors([])
         with guard(run, 'iter(Context.lattice)', [pc.line, 'lattice']):
             L = pc.ctx.lattice
             got = pairs_of(pc, L)
